@@ -481,8 +481,9 @@ pub fn format_number(value_original: f64, format: &str, locale: &Locale) -> Form
             let group_sizes = locale.numbers.decimal_formats.standard.to_owned();
             let group_separator = symbols.group.to_owned();
             let decimal_separator = symbols.decimal.to_owned();
-            // There probably are better ways to check if a number at a given precision is negative :/
-            let is_negative = value < -(10.0_f64.powf(-(p.precision as f64)));
+            // The number is shown as negative if it is negative and any of the digits displayed is not zero
+            let is_negative = value < 0.0
+                && (!int_part.is_empty() || fract_part.iter().any(|c| *c != '0'));
             let mut needs_period = false;
 
             for token in tokens {
